@@ -100,7 +100,49 @@ class FuncTable(dict):
         return dict.__contains__(self, key) or key in self.alias
 
 
+def _self_field(t):
+    return t.attr if isinstance(t, ast.Attribute) and isinstance(t.value, ast.Name) and t.value.id == "self" else None
+
+
 class Index:
+    def canonical_fields(self):
+        """private fields of the listener are known to the rules by the names of the pinned tree; a field that was renamed is recognised by its
+        role (the field that receives the constructor's directory argument, the flag set on entering a loop, the mapping filled by include)
+        and given its old name throughout the package.  Only a one-to-one renaming is undone: the old name must be unused."""
+        self.field_renames = {}
+        cls = None
+        for q, c in self.classes.items():
+            if q.startswith("listener.") and any(isinstance(f, ast.FunctionDef) and f.name == "exitInclude" for f in c.body):
+                cls = c
+        if cls is None:
+            return
+        meth = {f.name: f for f in cls.body if isinstance(f, ast.FunctionDef)}
+        roles = {}
+        init = meth.get("__init__")
+        if init is not None:
+            params = {a.arg for a in init.args.args[1:] + init.args.kwonlyargs}
+            xs = {_self_field(t) for n in ast.walk(init) if isinstance(n, ast.Assign) and isinstance(n.value, ast.Name) and n.value.id in params and n.value.id == "cwd" for t in n.targets}
+            roles["_cwd"] = xs - {None}
+        ef = meth.get("enterForloop")
+        if ef is not None:
+            xs = {_self_field(t) for n in ast.walk(ef) if isinstance(n, ast.Assign) and isinstance(n.value, ast.Constant) and n.value.value is True for t in n.targets}
+            roles["_in_for"] = xs - {None}
+        ei = meth.get("exitInclude")
+        if ei is not None:
+            xs = {_self_field(t.value) for n in ast.walk(ei) if isinstance(n, ast.Assign) for t in n.targets if isinstance(t, ast.Subscript)}
+            roles["_includes"] = xs - {None}
+        used = {n.attr for t in self.mods.values() for n in ast.walk(t) if isinstance(n, ast.Attribute)}
+        for old, xs in roles.items():
+            if len(xs) == 1:
+                new = next(iter(xs))
+                if new != old and old not in used and new.startswith("_"):
+                    self.field_renames[new] = old
+        if self.field_renames:
+            for t in self.mods.values():
+                for n in ast.walk(t):
+                    if isinstance(n, ast.Attribute) and n.attr in self.field_renames:
+                        n.attr = self.field_renames[n.attr]
+
     def __init__(self, rep=None, modules=HAND, sources=None, inline=True):
         """sources: optional dict module name -> source text (used by the positive controls and the self-test)"""
         self.mods = {}
@@ -146,6 +188,7 @@ class Index:
                         if isinstance(f, (ast.FunctionDef, ast.AsyncFunctionDef)):
                             q = "%s.%s.%s" % (m, n.name, f.name)
                             self.funcs[q] = Func(m, q, f, cls="%s.%s" % (m, n.name))
+        self.canonical_fields()
         # definitions the rules know by name that now live in another module of the package and are re-exported from the old one
         # (`from ._types import is_ptype` in listener.py): the old name stays an alias of the same Func / ClassDef
         known_classes = {q.rsplit(".", 1)[0] for q in KNOWN_FUNCTIONS if q.count(".") == 2}
